@@ -65,6 +65,29 @@ def main():
                                       "input": {"w": np.asarray(w).tolist()[:50], "ess": ess, "bins": bins},
                                       "note": "found by the bounded native contract search"}))
                     return
+    # the weight vector in any storage the caller may hold it in (strided view, column of a table, float32, unnormalised with sum > 1):
+    # same selection as for the contiguous float64 copy, and the requested ESS fraction is delivered
+    r9 = np.random.RandomState(9)
+    for n in (37, 200):
+        base = np.exp(r9.randn(n) * 2.5) * 7.3
+        table = np.column_stack([r9.rand(n), base])
+        forms = (("strided view w[::2] of a longer array", np.repeat(base, 2)[::2]), ("last column of a 2-d table", table[:, -1]),
+                 ("float32", base.astype(np.float32)), ("reversed view", base[::-1][::-1]))
+        for ess in (0.9, 0.99):
+            ref_s, ref_w = tools.trim_weights(np.arange(n), base.copy(), ess=ess, bins=300)
+            for fname, wv in forms:
+                tried += 1
+                try:
+                    wv0 = np.array(wv, dtype=float, copy=True)
+                    out_s, out_w = tools.trim_weights(np.arange(n), wv, ess=ess, bins=300)
+                except Exception as e:
+                    continue
+                wn = wv0 / wv0.sum()
+                ratio = ess_of(wn[np.asarray(out_s)]) / ess_of(wn)
+                if ratio < ess * (1 - 1e-6) or (fname != "float32" and not np.array_equal(np.asarray(out_s), np.asarray(ref_s))):
+                    print(json.dumps({"reproduced": True, "tried": tried, "detail": f"trim_weights on weights held as a {fname} (sum {float(wv0.sum()):.4g}): kept {len(out_s)} of {n} samples, "
+                                      f"ESS(kept)/ESS(all) = {ratio:.4f}, requested {ess}; the contiguous float64 copy keeps {len(ref_s)}", "input": {"storage": fname, "n": n, "ess": ess}}))
+                    return
     # results are the caller's: a held result is unchanged by later, different trimmings in the same process (sizes in both orders)
     held = []
     r8 = np.random.RandomState(8)
